@@ -59,7 +59,7 @@ let dec_case id avx2 pcap fin ops chunks =
   let stream = Stdlib.List.concat_map fst chunks in
   let (vs, t) = Spec.stream_values stream fin in
   (* the guard of C17_stream_chunk_independent_partial, evaluated on this stream *)
-  let guard = match DecProofs.good_values avx2 (S (Stdlib.List.fold_left (fun n _ -> S n) O stream)) stream with
+  let guard = match DecProofs.good_values avx2 fin (S (Stdlib.List.fold_left (fun n _ -> S n) O stream)) stream with
     | Some _ -> "G1" | None -> "G0" in
   Stdlib.Printf.printf "%s\t%s\t%s\t%s|%s\t%s\n" id (Stdlib.Buffer.contents b) (Stdlib.String.concat "," log)
     (Stdlib.String.concat "," (Stdlib.List.map Conv.hex_of_bytes vs)) (term_str t) guard
